@@ -194,6 +194,27 @@ def rstep (s : RState) : RLabel → Option RState
     | .closedGrpc => some { s with ptr := PState.closed, cpc := upd s.cpc j .done }  -- cc.state.Store({nil, Unavailable})
     | .done => none
 
+/-! ### `AdaptedClientConn.Close` and the answer of the underlying `grpc.ClientConn.Close()` -/
+
+/-- the code stores the closed state whatever the underlying Close answers; the seeded variant C16-m11 returns early
+    when it reports an error (client already closed: shared between two names, or closed by its owner) -/
+inductive CloseVariant | unconditional | returnOnError
+  deriving DecidableEq, Repr
+
+/-- `Close()` run to completion on pointer value `p`; `underlyingErr` = grpc.ClientConn.Close() returned an error -/
+def closeRun (v : CloseVariant) (underlyingErr : Bool) (p : PState) : PState :=
+  if !p.conn then p                                             -- if state.conn == nil { return }
+  else if v = .returnOnError ∧ underlyingErr then p             -- (m11) if err := conn.Close(); err != nil { return }
+  else PState.closed                                            -- cc.state.Store({nil, Unavailable})
+
+/-- a later `Stream()` (the underlying client is closed by now in every case) -/
+def streamAfterClose (p : PState) : SOut :=
+  if p.err then .unavailable else if !p.conn then .nilDeref else .closingErr
+
+/-- what the regenerated fact `c16CloseTrace` must say: Load, the nil-check return, the underlying Close with its result
+    thrown away, the Store — no return in between -/
+def expectedCloseTrace : List String := ["Load", "return", "ignored-result", "grpcClose", "Store"]
+
 /-! ### the connectivity state machine as environment: Connect() is the only way out of IDLE -/
 
 /-- who calls `conn.Connect()`: the code (every waitForReady whose first GetState answers Idle) or the seeded variant
